@@ -224,6 +224,7 @@ def finish(pid, mod, tier, seed, col, t0, budget_hit=False):
             continue
         viol_count += 1
         case = b["case"]
+        original = case
         # shrink (bounded) -- interesting = same bucket still reported
         try:
             from .shrink import shrink
@@ -245,7 +246,7 @@ def finish(pid, mod, tier, seed, col, t0, budget_hit=False):
         path = os.path.join("replays", pid, "%s.json" % case_hash({"b": bucket, "c": case}))
         with open(os.path.join(OUT, path), "w") as f:
             json.dump({"property": pid, "bucket": bucket, "detail": detail, "case": case,
-                       "seed": seed, "tier": tier}, f, indent=1, sort_keys=True)
+                       "seed": seed, "tier": tier, "unshrunk_case": original}, f, indent=1, sort_keys=True)
         lines.append("VIOLATION property=%s replay=%s" % (pid, path))
         lines.append("  bucket: %s (%d cases)\n  detail: %s" % (bucket, b["count"], str(detail)[:2000]))
         new_violation = True
